@@ -1121,6 +1121,11 @@ class RootAlias(ArrayExpr):
         from dask._task_spec import Alias
 
         dsk = {}
+        if isinstance(self.array, FinalizeCompute):
+            # A finalize node has one un-indexed key (the bare name), which is
+            # what its consumer (a Delayed embedded in a task's kwargs) refers to.
+            dsk[self._name] = Alias(self._name, self.array._name)
+            return dsk
         for idx in product(*(range(len(c)) for c in self.chunks)):
             out_key = (self._name,) + idx
             in_key = (self.array._name,) + idx
